@@ -153,7 +153,7 @@ def _walk_any(x, acc):
 
 
 _TAGS = {"poly", "sym", "attr", "call", "tuple", "list", "sub", "slice", "const",
-         "op", "ite", "item", "elem", "nt", "top", "dict", "lambda", "star", "fstr", "new"}
+         "op", "ite", "item", "elem", "nt", "top", "dict", "lambda", "star", "fstr", "new", "last"}
 
 
 def contains(t, needle):
@@ -208,6 +208,8 @@ def show(t):
         return show(t[1]) + "#" + str(t[2])
     if k == "elem":
         return "elem(" + show(t[1]) + ")"
+    if k == "last":
+        return "last(" + show(t[1]) + ")"
     if k == "nt":
         return t[1] + "(" + ", ".join(show(a) for a in t[2]) + ")"
     if k == "star":
@@ -221,6 +223,13 @@ def show(t):
     if k == "lambda":
         return "<lambda>"
     return repr(t)
+
+
+def cmp(op, a, b):
+    """Canonical comparison term; symmetric comparisons have their operands ordered."""
+    if op in ("Eq", "NotEq", "Is", "IsNot"):
+        a, b = sorted((a, b), key=_key)
+    return ("op", "cmp:" + op, (a, b))
 
 
 NONE = ("const", None)
@@ -264,6 +273,7 @@ class Result:
         self.returns = []   # (pc, term, node)
         self.yields = []    # (pc, term, node)
         self.loops = []     # (index, iter_term, node)
+        self.after_loop = {}  # loop index -> env right after the loop
         self.nested = {}    # name -> (FunctionDef, env snapshot)
         self.lambdas = []
 
@@ -442,6 +452,20 @@ class Evaluator:
             out = self._block(s.body, benv, pc + (("loop", k),), res)
             after = self._havoc(env, s.body, "A%d" % k)
             self._bind_havoc(s.target, after, "A%d" % k)
+            if out is not None and not _has_loop_escape(s.body):
+                # after >= 1 iterations the variables hold the values of the last iteration: keep the relations among
+                # values computed in that same iteration (elem -> last); join with the pre-loop value for 0 iterations
+                ran = ("op", "nonempty", (it,))
+                for key, v in out.items():
+                    if env.get(key) == v:
+                        continue
+                    v2 = _replace(v, ("elem", it), ("last", it))
+                    pre = env.get(key)
+                    if pre is None or isinstance(key, tuple):
+                        after[key] = v2
+                    else:
+                        after[key] = ("ite", ran, v2, pre)
+            res.after_loop[k] = dict(after)
             if s.orelse:
                 after = self._block(s.orelse, after, pc, res)
             return after
@@ -596,7 +620,7 @@ class Evaluator:
             parts = []
             for op, c in zip(n.ops, n.comparators):
                 r = self._e(c, env, pc, res)
-                parts.append(("op", "cmp:" + type(op).__name__, (left, r)))
+                parts.append(cmp(type(op).__name__, left, r))
                 left = r
             return parts[0] if len(parts) == 1 else ("op", "and", tuple(parts))
         if isinstance(n, ast.IfExp):
@@ -787,6 +811,10 @@ class Evaluator:
             cur = env.get(n.func.value.id)
             if cur is not None and cur[0] in ("list", "tuple", "dict", "op"):
                 env[n.func.value.id] = ("sym", n.func.value.id)
+        elif isinstance(n.func, ast.Attribute) and n.func.attr in MUTATORS and f[0] == "attr" and f[1][0] in ("list", "tuple", "dict"):
+            # mutation of a container stored in an attribute/subscript whose literal value we were tracking
+            for key in [k2 for k2, v2 in env.items() if isinstance(k2, tuple) and v2 == f[1]]:
+                del env[key]
         # bounded inlining of pure project helpers
         target = None
         if f[0] == "sym" and f[1] in self.inline:
@@ -847,6 +875,22 @@ class Evaluator:
                 cond = ("op", "and", tuple(x[0] if x[1] else ("op", "not", (x[0],)) for x in conds))
             out = ("ite", cond, v, out)
         return out
+
+
+def _replace(t, old, new):
+    if t == old:
+        return new
+    if isinstance(t, tuple):
+        return tuple(_replace(x, old, new) if isinstance(x, tuple) else x for x in t)
+    return t
+
+
+def _has_loop_escape(stmts):
+    for st in stmts:
+        for n in ast.walk(st):
+            if isinstance(n, (ast.Break, ast.Return)):
+                return True
+    return False
 
 
 def _as_int(t):
